@@ -332,8 +332,9 @@ Definition ob_val (o : Z * Z * Z * Z * Z * list Z) : Z := let '(_, _, v, _, _, _
 Definition ob_bal (o : Z * Z * Z * Z * Z * list Z) : Z := let '(_, _, _, _, b, _) := o in b.
 Definition ob_ev (o : Z * Z * Z * Z * Z * list Z) : list Z := let '(_, _, _, _, _, e) := o in e.
 
-Definition scripts_of (ops : list op) : list (list instr) :=
-  flat_map (fun x => match x with OSource sc => [sc] | _ => [] end) ops.
+(* the scripts of the accepted Source ops *)
+Definition scripts_of (ops : list op) (os : list (Z * Z * Z * Z * Z * list Z)) : list (list instr) :=
+  flat_map (fun p => match fst p with OSource sc => if ob_st (snd p) =? 0 then [sc] else [] | _ => [] end) (combine ops os).
 
 (* values delivered to the consumer, in order *)
 Definition out_values (os : list (Z * Z * Z * Z * Z * list Z)) : list Z :=
@@ -414,7 +415,7 @@ Definition no_trailing_pend (os : list (Z * Z * Z * Z * Z * list Z)) : bool :=
 Definition aggr_oracle (ha : bool) (wops wobs : list (list Z)) : bool :=
   let ops := map (decode ha) wops in
   let os := map dec_obs wobs in
-  let scs := scripts_of ops in
+  let scs := scripts_of ops os in
   let osd := map snd (filter (fun p => match fst p with OAccess _ _ | OComplete _ _ => true | _ => false end) (combine ops os)) in
   let vals := out_values osd in
   let terms := out_terminals osd in
